@@ -795,6 +795,18 @@ def premise_oracles_vs_llvm(work, tier):
             enc = _mc("aarch64", ["adrp x16, #%d" % pg, "add x16, x16, #%d" % lo, "br x16"])
             cases.append("a64 %x %s" % (pc, " ".join("%08x" % int.from_bytes(bytes(e), "little") for e in enc)))
             expect.append(("adrp #%d; add #%d; br @%x" % (pg, lo, pc), {"pc": ((pc & ~0xfff) + pg + lo) & M64, "written": 1 << 16, "bad": "false"}))
+        # the encoding TABLES the emitter harnesses (a64_emit.rs) compare against, re-derived from LLVM
+        for _ in range(16):
+            imm, hw, rd, sf = rnd.getrandbits(16), rnd.randrange(4), rnd.randrange(31), rnd.randrange(2)
+            if sf == 0 and hw > 1:
+                hw &= 1
+            reg = ("x%d" if sf else "w%d") % rd
+            e = _mc("aarch64", ["movz %s, #%d, lsl #%d" % (reg, imm, 16 * hw), "movk %s, #%d, lsl #%d" % (reg, imm, 16 * hw), "br x%d" % rd, "ret x%d" % rd])
+            words = [int.from_bytes(bytes(x), "little") for x in e]
+            common = (sf << 31) | (hw << 21) | (imm << 5) | rd
+            table = [0x52800000 | common, 0x72800000 | common, 0xD61F0000 | (rd << 5), 0xD65F0000 | (rd << 5)]
+            if words != table:
+                return {"name": "oracles_vs_llvm", "ok": None, "detail": "encoding table used by a64_emit.rs disagrees with LLVM for %s imm=%x hw=%d: %r vs %r" % (reg, imm, hw, [hex(w) for w in words], [hex(t) for t in table])}
         enc = _mc("aarch64", ["nop", "nop", "b #-8"])
         cases.append("a64 8000 %s" % " ".join("%08x" % int.from_bytes(bytes(e), "little") for e in enc))
         expect.append(("nop; nop; b #-8", {"pc": 0x8000 + 8 - 8, "written": 0}))
